@@ -439,9 +439,13 @@ impl BlockData {
                 parent = new_parent;
             }
 
-            // cap preallocation to the slice size limit (wincode has a 4 MiB default)
+            // cap preallocation (wincode has a 4 MiB default): a slice holds at most one transaction
+            // per 8 bytes of data (the length prefix) and each takes `size_of::<Transaction>()`
+            // bytes in the decoded vector, which is what the limit is compared against
+            const MAX_TXS_PREALLOCATION: usize =
+                MAX_DATA_PER_SLICE / 8 * std::mem::size_of::<crate::Transaction>();
             let config =
-                DefaultConfig::default().with_preallocation_size_limit::<MAX_DATA_PER_SLICE>();
+                DefaultConfig::default().with_preallocation_size_limit::<MAX_TXS_PREALLOCATION>();
             let mut txs = match wincode::config::deserialize_exact(&slice.data, config) {
                 Ok(r) => r,
                 Err(err) => {
